@@ -203,8 +203,16 @@ Definition blk_add (b : blk) (c : Cfg) (es : list entry) : blk :=
   {| b_id := b_id b; b_file := b_file b; b_off := b_off b; b_limit := b_limit b;
      b_used := b_used b + sum_need c es; b_ents := b_ents b ++ es |}.
 
+(* walrus_write.rs::check_appendable: rejections that depend only on the arguments, decided
+   before anything is marked, allocated or sealed *)
+Definition appendable (c : Cfg) (t : topic) (maxlen : N) : option errk :=
+  if c_max_alloc c <? N.min u64_max (c_hdr c + maxlen) then Some EInvalidInput
+  else if negb (name_ok c t) then Some EInvalidData else None.
+Definition max_len (es : list entry) : N := fold_right (fun e a => N.max (e_len e) a) 0 es.
+
 (* Walrus::append_for_topic + Writer::write *)
 Definition append (c : Cfg) (s : st) (t : topic) (e : entry) : st * result :=
+  match appendable c t (e_len e) with Some k => (s, RErr k) | None =>
   let '(s1, w) := ensure_writer c s t in
   let ts := get_ts s1 (t_id t) in
   if ts_poisoned ts then (s1, RErr EOther) else
@@ -224,7 +232,8 @@ Definition append (c : Cfg) (s : st) (t : topic) (e : entry) : st * result :=
   let w3 := blk_add w2 c [e] in
   let s3 := st_disk_write s2 w2 t [e] in
   let ts3 := get_ts s3 (t_id t) in
-  (set_ts s3 (t_id t) (count_add (with_writer ts3 (Some w3)) 1), ROk).
+  (set_ts s3 (t_id t) (count_add (with_writer ts3 (Some w3)) 1), ROk)
+  end.
 
 (* Writer::batch_write planning.  [cur] carries the planned entries (b_used is the planning
    offset); a rotation seals [cur] as it stands (its used covers entries of this batch) and
@@ -254,6 +263,7 @@ Definition mark_unmodelled (s : st) (t : N) : st :=
 
 (* Walrus::batch_append_for_topic + Writer::batch_write *)
 Definition batch (c : Cfg) (be : backend) (s : st) (t : topic) (es : list entry) : st * result :=
+  match appendable c t (max_len es) with Some k => (s, RErr k) | None =>
   let '(s1, w) := ensure_writer c s t in
   let ts := get_ts s1 (t_id t) in
   if c_max_entries c <? N.of_nat (length es) then (s1, RErr EInvalidInput) else
@@ -277,6 +287,7 @@ Definition batch (c : Cfg) (be : backend) (s : st) (t : topic) (es : list entry)
     else
       let ts2 := get_ts s2 (t_id t) in
       (set_ts s2 (t_id t) (count_add (with_writer ts2 (Some wfin)) (N.of_nat (length es))), ROk)
+  end
   end.
 
 (* ------------------------------------------------------------------ read_next *)
@@ -634,37 +645,38 @@ Fixpoint rc_push (l : list (N * (topic * list blk))) (t : topic) (b : blk) : lis
   | (k, (t0, ch)) :: r => if k =? t_id t then (k, (t0, ch ++ [b])) :: r else (k, (t0, ch)) :: rc_push r t b
   end.
 
-(* entries seen by the recovery walk of one block: from [es] at in-block offset [pos],
-   continuing while pos < the block's extent [lim] *)
-Fixpoint walk_unit (c : Cfg) (lim : N) (es : list entry) (pos : N) (acc : list entry) : list entry * N :=
+(* the recovery walk of one block: from [es] at in-block offset [pos], continuing while
+   pos < the extent known so far [lim]; an entry that starts inside the extent and ends beyond
+   it extends the extent to the unit boundary behind it.  Result: entries seen, used, extent *)
+Definition round_up (c : Cfg) (x : N) : N := div_up x (c_block c) * c_block c.
+Fixpoint walk_unit (c : Cfg) (lim : N) (es : list entry) (pos : N) (acc : list entry) : list entry * N * N :=
   match es with
-  | [] => (rev acc, pos)
-  | e :: r => if lim <=? pos then (rev acc, pos) else walk_unit c lim r (pos + need c e) (e :: acc)
+  | [] => (rev acc, pos, lim)
+  | e :: r => if lim <=? pos then (rev acc, pos, lim)
+              else let np := pos + need c e in
+                   walk_unit c (if lim <? np then round_up c np else lim) r np (e :: acc)
   end.
-
-(* the extent recovery derives from a block's first entry (the allocator's rounding) *)
-Definition extent_of (c : Cfg) (e : entry) : N :=
-  if c_block c <? need c e then div_up (need c e) (c_block c) * c_block c else c_block c.
 
 (* scan the blocks of one file in offset order.  [zeros] = all-zero units seen since the last
    block with data: they count towards the block ids only when data follows in this file.
    The on-disk blocks of a file are contiguous from offset 0 (allocation is sequential), so
    walking the list is walking the file unit by unit; a never-written block of k units is k
-   zero probes.  If the extent derived from the first entry is not the allocated one, the scan
-   is out of step with the layout: flagged (cannot happen for blocks written by this model). *)
+   zero probes, and so are the units of a written block beyond the extent the walk derives.
+   If the derived extent exceeds the allocated one the scan is out of step with the layout:
+   flagged (cannot happen for blocks written by this model). *)
 Fixpoint scan_blocks (c : Cfg) (f : N) (blocks : list dblk) (zeros : N) (next_id : N) (acc : recovered)
   : recovered * N :=
   match blocks with
   | [] => (acc, next_id)
   | b :: rest =>
     match d_ents b, d_topic b with
-    | e1 :: _, Some t =>
-      let lim := extent_of c e1 in
-      if negb (lim =? d_limit b) then ({| rc_chains := rc_chains acc; rc_flag := true |}, next_id) else
+    | _ :: _, Some t =>
+      let '(seen, used, lim) := walk_unit c (c_block c) (d_ents b) 0 [] in
+      if d_limit b <? lim then ({| rc_chains := rc_chains acc; rc_flag := true |}, next_id) else
       let id := next_id + zeros in
-      let '(seen, used) := walk_unit c lim (d_ents b) 0 [] in
       let nb := {| b_id := id; b_file := f; b_off := d_off b; b_limit := lim; b_used := used; b_ents := seen |} in
-      scan_blocks c f rest 0 (id + 1) {| rc_chains := rc_push (rc_chains acc) t nb; rc_flag := rc_flag acc |}
+      scan_blocks c f rest ((d_limit b - lim) / c_block c) (id + 1)
+                  {| rc_chains := rc_push (rc_chains acc) t nb; rc_flag := rc_flag acc |}
     | _, _ => scan_blocks c f rest (zeros + d_limit b / c_block c) next_id acc
     end
   end.
